@@ -130,7 +130,8 @@ structure CompactRel (hh : Option Nat) (res res' : CompactRes ρ) : Prop where
 
 theorem compact_CRel {hh : Option Nat} (T : Tun) (F : SecFns ρ) {c c' nxt nxt' : Compactor ρ} (d d' : Bool)
     (r : CRel hh c c') (rn : CRel hh nxt nxt') (hnl : nxt.lgWeight = c.lgWeight + 1)
-    (hd1 : ∀ h, hh = some h → c.lgWeight < h → d' = d) (hd2 : ∀ h, hh = some h → c.lgWeight = h → d' = !d)
+    (hd1 : ∀ h, hh = some h → c.lgWeight < h → ¬ c.state % 2 = 1 → d' = d)
+    (hd2 : ∀ h, hh = some h → c.lgWeight = h → ¬ c.state % 2 = 1 → d' = !d)
     (hev : ((c.compactionRange T).2 - (c.compactionRange T).1) % 2 = 0)
     (hle : (c.compactionRange T).1 ≤ (c.compactionRange T).2) (hin : (c.compactionRange T).2 ≤ c.items.length) :
     CompactRel hh (c.compact T F nxt d) (c'.compact T F nxt' d') := by
@@ -152,13 +153,16 @@ theorem compact_CRel {hh : Option Nat} (T : Tun) (F : SecFns ρ) {c c' nxt nxt' 
       exact ⟨by show c'.items.take _ ++ c'.items.drop _ = c.items.take _ ++ c.items.drop _; rw [a], b⟩
     · intro h e hl
       show (if c.state % 2 = 1 then !c'.coin else d') = (if c.state % 2 = 1 then !c.coin else d)
-      rw [r.coinLt h e hl, hd1 h e hl]
+      rw [r.coinLt h e hl]
+      split
+      · rfl
+      · rename_i ho; exact hd1 h e hl ho
     · intro h e hl
       show (if c.state % 2 = 1 then !c'.coin else d') = ((if c.state % 2 = 1 then !c.coin else d) != (if c.state % 2 = 1 then c.rnd else true))
-      rw [r.coinEq h e hl, hd2 h e hl]
+      rw [r.coinEq h e hl]
       split
       · exact bool_flip_lemma _ _
-      · cases d <;> rfl
+      · rename_i ho; rw [hd2 h e hl ho]; cases d <;> rfl
   have e1 := ensureEnough_CRel T F r1
   have hpl : ∀ coin', (promote ((c'.items.take (c.compactionRange T).2).drop (c.compactionRange T).1) coin').length
       = ((c.compactionRange T).2 - (c.compactionRange T).1) / 2 := by
@@ -179,7 +183,10 @@ theorem compact_CRel {hh : Option Nat} (T : Tun) (F : SecFns ρ) {c c' nxt nxt' 
       obtain ⟨a, b⟩ := r.same h e (by omega)
       obtain ⟨a2, b2⟩ := rn.same h e hl
       have hcoin : (if c.state % 2 = 1 then !c'.coin else d') = (if c.state % 2 = 1 then !c.coin else d) := by
-        rw [r.coinLt h e hcl, hd1 h e hcl]
+        rw [r.coinLt h e hcl]
+        split
+        · rfl
+        · rename_i ho; exact hd1 h e hcl ho
       refine ⟨?_, ?_⟩
       · show (if c.hra = true then mergeRuns _ nxt'.items else mergeRuns nxt'.items _) = (if c.hra = true then mergeRuns _ nxt.items else mergeRuns nxt.items _)
         rw [a, a2, hcoin]
